@@ -18,7 +18,7 @@ calling check on every observation:
 No Lean model speaks for these observations (the C11 model has no handler events and no slack): the functions are listed as
 unmodelled in the evidence of the calling check — oracle on the implementation only.
 """
-import os, random, re, subprocess
+import re, os, random, re, subprocess
 import orch, buildlib, proto
 from orch import log, VERIF
 
@@ -219,6 +219,59 @@ def run_c02(res, known, tier):
         log("  C02 fmtstage slack=%d: %d cases x 2 locales" % (slack, len(cl)))
 
 
+
+def asan_lines():
+    """conversions whose staging lives in objects of the LIBRARY (stack arrays of the engine): out of reach of guard pages"""
+    out = []
+    n = 0
+    for fn in BUF:
+        for fmt in (b"%lc", b"%5lc", b"%-5lc|", b"a%lcb", b"%lc%lc"):
+            for v in (0x41, 0xe9, 0x20ac, 0x10ffff, 0x110000, 0x1fffff, 0x200000, 0x3ffffff, 0x4000000, 0x7fffffff, 0xffffffff):
+                args = ",".join(["i:%d" % v] * fmt.count(b"lc"))
+                out.append((n, fn, "id=%d fn=%s dmax=64 fmt=%s args=%s noref=1" % (n, fn, fmt.hex(), args), "%s(buf, 64, %r, 0x%x)" % (fn, fmt, v)))
+                n += 1
+    return out
+
+
+def run_asan(res, known, hl_cases):
+    """C01, library-internal objects: the narrow printf family once more, library and harness built with AddressSanitizer.
+    A sanitizer report inside the library is a store (or load) outside every declared object: reported with the input line."""
+    import subprocess
+    pid = "C01"
+    L = buildlib.build(slack=True, extra_cflags=("-fsanitize=address", "-fno-omit-frame-pointer"))
+    hbin = buildlib.build_harness(L, os.path.join(VERIF, "harness", "hprintf.c"), os.path.join(L["dir"], "hprintf_asan"),
+                                  extra=("-fsanitize=address", "-fno-omit-frame-pointer"))
+    env = dict(os.environ, ASAN_OPTIONS="detect_leaks=0:handle_segv=0:allow_user_segv_handler=1:halt_on_error=1:abort_on_error=0")
+    special = asan_lines()
+    work = [(fn, ln, desc) for (_, fn, ln, desc) in special] + [(None, ln, ln[:160]) for ln in hl_cases]
+    nrep = 0
+    for loc in ("C", "C.UTF-8"):
+        pending = list(work)
+        guard = 0
+        while pending and guard < 50:
+            guard += 1
+            r = subprocess.run([hbin, loc], input="\n".join(x[1] for x in pending) + "\n", capture_output=True, text=True, env=env, timeout=1800)
+            done = set(re.findall(r"^id=(\d+)", r.stdout, flags=re.M))
+            res.evaluations += len(done)
+            if "AddressSanitizer" not in r.stderr:
+                break
+            idx = next((i for i, x in enumerate(pending) if re.match(r"id=(\d+)", x[1]).group(1) not in done), None)
+            if idx is None:
+                break
+            fn, ln, desc = pending[idx]
+            fn = fn or re.search(r"fn=(\w+)", ln).group(1)
+            kind = (re.search(r"AddressSanitizer: ([\w-]+)", r.stderr) or [None, "report"])[1]
+            obj = re.search(r"'(\w+)' \(line (\d+)\) <== Memory access", r.stderr)
+            site = re.search(r"#\d+ 0x[0-9a-f]+ in (\w+) [^\n]*?/src/([\w/]+\.c):(\d+)", r.stderr)
+            sig = "%s:asan:%s%s" % (fn, kind, (":" + obj.group(1)) if obj else "")
+            record(res, pid, known, 1, fn, sig,
+                   "AddressSanitizer %s inside the library%s (locale %s)" % (kind, (" at %s %s:%s" % site.groups()) if site else "", loc),
+                   dict(desc=desc + " locale " + loc, h=ln, loc=loc, asan=r.stderr[:1500]))
+            nrep += 1
+            pending = pending[idx + 1:]
+    log("  C01 fmtstage asan: %d lines x 2 locales, %d sanitizer reports" % (len(work), nrep))
+
+
 def record(res, pid, known, slack, fn, sig, detail, rep):
     ent = next((e for e in known if orch.known_match(e, pid, sig, slack)), None)
     if ent is not None:
@@ -276,3 +329,9 @@ def run(pid, res, tier, seed, known):
             for sig, detail in woracle(pid, fn, dm, dc, slack):
                 record(res, pid, known, slack, fn, sig, detail, dict(desc="%s(dmax=%d, %s, text length %d)" % (fn, dm, fmt, Ln), h=wlines[i], impl={k: v[:400] for k, v in dc.items()}))
         log("  %s fmtstage slack=%d: %d observations" % (pid, slack, n))
+        if pid == "C01" and slack == 1:
+            try:
+                # ids must stay unique next to the special lines: renumber from 100000
+                run_asan(res, known, [re.sub(r"^id=\d+", "id=%d" % (100000 + k), ln) for k, ln in enumerate(hl)])
+            except Exception as e:       # an auxiliary stage: its own trouble is logged, never reported as a pass of anything
+                log("  C01 fmtstage asan: NOT RUN (%s)" % str(e)[:200])
